@@ -438,14 +438,16 @@ pub fn run_case(cfg: &Config, trace: Option<verif::Config>) -> CaseResult {
         let (m0, m1, s0) = (g.min_opcodes, g.max_opcodes, g.seed);
         let (v0, e0, b0) = (g.state.version, g.allow_ext_opcodes, g.allow_buffer_opcodes);
         // one warm-up in 16 is a large pickle (buffers and tables grown well past their defaults)
+        // ... and one in 64 a very large one (output buffer beyond 64 KiB)
         let big = w % 16 == 0;
-        let style = (w >> 4) % 5;
-        g.min_opcodes = if big { 2500 } else { 150 };
-        g.max_opcodes = if big { 3000 } else { 400 };
+        let huge = w % 64 == 0;
+        let style = (w >> 6) % 5;
+        g.min_opcodes = if huge { 9000 } else if big { 2500 } else { 150 };
+        g.max_opcodes = if huge { 9500 } else if big { 3000 } else { 400 };
         g.seed = Some(w);
         if style == 2 {
             // the earlier pickle was generated for another protocol (public field `state.version`)
-            let other = ((cfg.proto as u64 + 1 + (w >> 8) % 5) % 6) as usize;
+            let other = ((cfg.proto as u64 + 1 + (w >> 10) % 5) % 6) as usize;
             g.state.version = Version::try_from(other).expect("proto");
         }
         if style == 3 {
